@@ -260,7 +260,7 @@ nlopt_result crs_minimize(int n, nlopt_func f, void *f_data,
 		    *minf = best->k[0];
 		    memcpy(x, best->k + 1, sizeof(double) * n);
 	       }
-	       if (ret != NLOPT_SUCCESS) {
+	       if (ret == NLOPT_SUCCESS) {
 		    if (nlopt_stop_evals(stop)) 
 			 ret = NLOPT_MAXEVAL_REACHED;
 		    else if (nlopt_stop_time(stop)) 
